@@ -459,10 +459,10 @@ def subdivide_edges(draw, mesh, max_splits=3):
 @st.composite
 def tiny_patch_mesh(draw, renumber=True, micro=False):
     """High-resolution regional patch: nx x ny nodes, cells of 1e-3 .. 0.5 degrees, quads, triangles or both.
-    micro=True adds sub-metre cells (2e-6 degrees), below the position tolerance of the geometric oracles: only for
+    micro=True adds sub-metre cells (2e-6 and 2e-7 degrees: 20 and 2 cm), below the position tolerance of the geometric oracles: only for
     checks whose verdict on such a mesh is tolerance-free (index structure, counts)."""
     nx, ny = draw(st.integers(3, 5)), draw(st.integers(3, 5))
-    d = draw(sampled_from([1e-3, 1e-2, 0.1, 0.5] + ([2e-6, 2e-6] if micro else [])))
+    d = draw(sampled_from([1e-3, 1e-2, 0.1, 0.5] + ([2e-6, 2e-7] if micro else [])))
     lon0 = draw(sampled_from([10.0, 179.9, -0.002, 100.0]))
     lat0 = draw(sampled_from([0.0, 40.0, -70.0, 85.0]))
     tri = draw(sampled_from(["quad", "tri", "mixed"]))
